@@ -14,13 +14,13 @@ TEXT = {
     "C05": ("drop-site frame (only 4 program points drop, one value each), overwritten value already consumed by every registered stream (ring invariant), both destructor loops drop each written slot / each unconsumed position exactly once (induction over the loop, any state); tie: payload birth/clone/drop ledger of the harness on every real execution + all teardown orders + sequential differential; F5/F12 known", "invariant + loop-induction proofs (Lean) + ledger monitor on real executions"),
     "C06": ("quiescent states of Core abstract to Spec states; tie: quiescent fill/drain probe after every concurrent run", "refinement at quiescence + probe"),
     "C07": ("writers = live sender handles; Disconnected implies writers = 0 and position = head at the second tag load; stable afterwards; tie: disc family + end monitor", "invariant proof + event correspondence"),
-    "C08": ("no-lost-wake-up invariant for BlockingWait, pairing of (seq, slot), every spin round evaluates check; tie: wake family under the deterministic scheduler with exact deadlock detection", "invariant proof + event correspondence"),
+    "C08": ('WakeInv (MQ/Inv/Wake*.lean): in every reachable state of a BlockingWait queue a consumer waiting on the condvar whose condition holds has a pending notifier, which stays pending until its notify_all releases every waiter (inductive over all labels; hypothesis: the condvar mutex is mutual exclusion); plus the arithmetic of wait::check (true when published or no writers, false on a fresh slot), the (seq, slot) pairing and the yield loops; tie: event correspondence incl. lock/cvwait/cvnotify events, arithmetic differential on check, hang verdicts of the scheduler', 'invariant proof (Lean, no-lost-wakeup) + arithmetic differential + event correspondence + hang verdicts'),
     "C09": ("sequential refinement: every API call run solo from a quiescent state returns what Spec returns; tie: the property is itself a differential — exhaustive short + random long call sequences, real API vs Spec", "refinement proof + sequential differential"),
     "C10": ("new stream starts at the parent's position at the snapshot; window facts preserved when the snapshot is still current at publication (known finding F1 otherwise); tie: streams family", "invariant proof (partial: F1) + event correspondence"),
     "C11": ("removed stream is not in the current group; unsubscribe's boolean; tie: streams family + sequential differential", "invariant proof + event correspondence"),
     "C12": ("mode invariants (Uni => one writer, Single => one consumer) at every step of clone/drop/convert; C01-C03 theorems quantify over these labels; tie: churn family", "invariant proof + event correspondence"),
     "C13": ("no-reader flag is set by the removal of the last stream and never cleared; a send that starts afterwards returns Disconnected without touching the ring; tie: sequential differential + fut parking race", "invariant proof + differential"),
-    "C14": ("no-lost-wake-up invariant for both FutWait lists; tie: fut family with the harness executor (notifications are events)", "invariant proof (partial: F8b) + event correspondence"),
+    "C14": ("WakeInv for the futures wait: a consumer task parked on the list whose condition holds has a pending notifier that stays pending until it has drained the list (hypothesis: the list lock is mutual exclusion); park re-checks under the lock, notify drains, sink parks only after a locked Full, poll on Empty notifies producers; producers' side (space available => notifier pending) is covered by hang verdicts only; tie: event correspondence + hang verdicts", 'invariant proof (Lean, no-lost-wakeup for parked consumers) + protocol step theorems + hang verdicts'),
     "C15": ("Sink/Stream programs refine the same Spec steps as the plain calls; bounded own steps of poll/start_send; tie: fut family + sequential differential", "refinement + event correspondence"),
     "C16": ("epoch invariant proved inductive over every label of the micro-step model: a dereferenced group and the position blocks of its streams are never released; a released batch needs every registered token at the epoch, which a holder's token is not; retired objects are never reachable again; under explicit hypotheses (ring StepOK, mutex mutual exclusion, handle ownership); tie: every manager event (locks, try_locks, epoch, tokens, signal bits) compared with the model on real executions + use-after-free / double-free monitor with quarantined deallocation", "invariant proof (Lean, EpochInv over RingInv+MgrInv) + event correspondence + allocation-ledger monitor"),
     "C17": ("invariant of the epoch manager (mutex ownership, epochs, batch never overwritten) and conservation of the retirement pipeline (multiset of waiting+pending+released = multiset passed to free) for every execution with mutual-exclusion mutexes; teardown empties both lists; tie: every lock/try_lock/epoch/token event compared with the model + counting allocator on real histories (teardown to zero, churn plateaus)", "invariant proof (Lean) + event correspondence + allocation counting"),
